@@ -33,6 +33,8 @@ IndD(c, i) == [c EXCEPT !.ind = Append(@, i)]
 ExcD(c, e) == [c EXCEPT !.exc = e]
 ExcRD(c, e, r) == [c EXCEPT !.exc = e, !.excr = r]
 StepD(c, s) == [c EXCEPT !.h.step = s]
+\* the receiver's positive ACK interval (its remote-entity configuration for the sender): cfg.ackIntD, 0 = the sender's
+AckIntD(cfg) == IF cfg.ackIntD = 0 THEN cfg.ackInt ELSE cfg.ackIntD
 ExpiredD(t, now, int) == now - t.start >= int
 \* _reset_internal(False): fresh parameters, idle; the queue is kept
 ResetD(c) == [c EXCEPT !.h.p = FreshD, !.h.state = "IDLE", !.h.step = "IDLE"]
@@ -286,7 +288,7 @@ RECURSIVE NonIdleD(_, _, _)
 \* _handle_positive_ack_procedures
 PositiveAckD(c, cfg) ==
   IF ~c.h.p.ackT.armed THEN ExcD(c, "AssertionError")
-  ELSE IF ExpiredD(c.h.p.ackT, c.now, cfg.ackInt) THEN
+  ELSE IF ExpiredD(c.h.p.ackT, c.now, AckIntD(cfg)) THEN
      IF c.h.p.ackCnt + 1 >= cfg.ackLim THEN
         IF c.h.p.disp = "CANCELED" THEN
            \* CFDP 4.11.2.3.3: fault while the Finished (cancel) is being transferred -> abandon
